@@ -35,7 +35,14 @@ StateChecks(r) ==
     net_len |-> [a |-> TRUE, c |-> r.len = NetLen(s.net)],
     iter_deliv |-> [a |-> r.expanded, c |-> r.expanded => BagOfSeq(r.iter_deliv) = {<<e, 1>> : e \in Deliverable(s.net)}],
     iter_all |-> [a |-> r.expanded, c |-> r.expanded => (~r.iter_all_truncated /\ BagOfSeq(r.iter_all) = AllEnvs(s.net))],
-    crash_budget |-> [a |-> sys.max_crashes > 0, c |-> NCrashed(s) <= sys.max_crashes]
+    crash_budget |-> [a |-> sys.max_crashes > 0, c |-> NCrashed(s) <= sys.max_crashes],
+    \* C10: representative() = image under the stable sorting permutation of the actor states.
+    \* Envelopes addressed to non-existent actors are outside the permutation's domain; the code is
+    \* not required to handle them (antecedent false).
+    representative |-> LET endpointsOK == \A p \in AllEnvs(s.net) : p[1].src \in Ids(sys) /\ p[1].dst \in Ids(sys)
+                                           /\ \A e \in s.net.last : e.src \in Ids(sys) /\ e.dst \in Ids(sys)
+                       IN [a |-> r.has_rep /\ endpointsOK,
+                           c |-> (r.has_rep /\ endpointsOK) => (~r.rep_panicked /\ Abs(r.rep) = Representative(s))]
   ]
 
 (* per system: identity (C04) and the real checkers' counts (C04, C09) *)
